@@ -43,7 +43,7 @@ def run(prog, rep):
     rep.expect_min("C05.paramflow", 17)
     rep.expect_min("C05.slots", 20)
     rep.expect_min("C05.siblings", 70)
-    rep.expect_min("C05.support", 2)
+    rep.expect_min("C05.support", 3)
     rep.expect_min("C05.pair", 1)
     rep.expect_min("C05.generic", 5)
     from .purity import row as _stateless_row
@@ -299,11 +299,20 @@ def siblings(prog, rep, fam):
                   f"{[show(a)[:50] for a in args[1:]]} kw={list(kw)} expected {[show(a)[:50] for a in S]}")
 
 
-def _is_support_mask(x, xf):
-    """np.where(x > 0, x, nan)"""
+def _as_array(xf):
+    """the formal itself or a value-preserving array conversion of it"""
+    return [xf] + [("call", G(f), (xf,), kw) for f in ("numpy.asarray", "numpy.array", "numpy.asanyarray")
+                   for kw in ((), (("dtype", G("float")),), (("dtype", G("numpy.float64")),))]
+
+
+def _is_support_mask(x, xf, need_array=False):
+    """np.where(x > 0, x, nan), x possibly converted to an array first (need_array: the comparison must be on the converted x - a list
+    cannot be compared with 0)"""
     if x[0] == "call" and x[1] == G("numpy.where") and len(x[2]) == 3:
         c, a, bb = x[2]
-        return c == CMP(">", xf, ("const", 0)) and a == xf and bb == G("numpy.nan")
+        for xa in _as_array(xf):
+            if c == CMP(">", xa, ("const", 0)) and a in (xf, xa) and bb == G("numpy.nan"):
+                return xa != xf if need_array else True
     return False
 
 
@@ -326,6 +335,10 @@ def support(prog, rep):
     rep.check(ok, "C05.support", "ExponentiatedWeibullDistribution.pdf:mask", site,
               "scipy pdf is evaluated on where(x > 0, x, nan)",
               f"scipy pdf must be evaluated only where x > 0 (strict) with NaN elsewhere; found {show(t)[:160]}")
+    rep.check(ok and _is_support_mask(t[2][0], xf, need_array=True), "C05.support", "ExponentiatedWeibullDistribution.pdf:array-like", site,
+              "x is converted to an array before it is compared with 0",
+              "x > 0 on the argument as passed: a list or tuple (x : array_like; cdf and icdf of the same class and the pdf of every other family take one) raises "
+              "TypeError \"'>' not supported between instances of 'list' and 'int'\" - also through model.marginal_pdf([1.0, 2.5], 0) of the OMAE2020 models")
     # NaN -> 0 on the result: a store _pdf[isnan(_pdf)] = 0 (array) and the scalar branch _pdf = 0 under isnan
     zeroed = 0
     for st in cfg.all_stmts():
